@@ -6,7 +6,11 @@ export GOFLAGS=-mod=mod GOPROXY=off GOSUMDB=off GOTOOLCHAIN=local CGO_ENABLED=0
 mkdir -p build evidence replays lean/Drpc/Generated
 (cd tools/extract && go1.26.8 build -o ../../build/extract .)
 build/extract /repo > lean/Drpc/Generated/Consts.lean.tmp && mv lean/Drpc/Generated/Consts.lean.tmp lean/Drpc/Generated/Consts.lean
-(cd lean && lake build Drpc drpcmodel)
+(cd lean && lake build drpcmodel)
+# the whole library (all property and tie modules); a failure here is reported by the individual checks
+(cd lean && lake build Drpc) || echo "setup: lake build Drpc failed (individual checks will report it)"
 cp /repo/go.sum harness/go.sum
 (cd harness && go1.26.8 build -tags verif -o ../build/corr ./cmd/corr)
+# C18: the released v0.0.17 (module cache) behind a line protocol; the compat suite also rebuilds it on demand
+(cd oldwire && (go1.26.8 build -o ../build/oldwire . || go build -o ../build/oldwire .))
 echo setup ok
